@@ -105,6 +105,8 @@ struct World {
     open_ports: HashMap<u64, (usize, u64)>, // port -> (opener endpoint, req)
     connects_sent: HashMap<(usize, u64), usize>, // (opener endpoint, port) -> Connect frames seen on the wire
     dg_owed: [std::collections::VecDeque<String>; 2], // datagrams accepted by send_datagram, not yet seen on the wire
+    dg_q: [std::collections::VecDeque<String>; 2], // receiving side: the datagrams the endpoint's buffer must hold (shadow)
+    dg_q_ok: [bool; 2], // … as long as the shadow is certain
     free_ids: [std::collections::HashSet<u32>; 2],   // flow ids an endpoint has certainly let go of (and not taken up again)
     bind_ids: [std::collections::HashSet<u32>; 2],   // flow ids under which an endpoint has a bind request out
     port_handle: HashMap<u64, [Option<usize>; 2]>,
@@ -248,6 +250,8 @@ impl World {
             open_ports: HashMap::new(),
             connects_sent: HashMap::new(),
             dg_owed: [std::collections::VecDeque::new(), std::collections::VecDeque::new()],
+            dg_q: [std::collections::VecDeque::new(), std::collections::VecDeque::new()],
+            dg_q_ok: [true; 2],
             free_ids: [std::collections::HashSet::new(), std::collections::HashSet::new()],
             bind_ids: [std::collections::HashSet::new(), std::collections::HashSet::new()],
             port_handle: HashMap::new(),
@@ -372,6 +376,8 @@ impl World {
             let (rs, evs) = out.split_once(" | ").unwrap_or((out.as_str(), ""));
             let rs: Vec<&str> = rs.split(" , ").collect();
             let calls: Vec<&[&str]> = t[1..].split(|x| *x == ";").collect();
+            // (a frame that arrives in the same poll as a call: what the datagram buffer holds is not tracked)
+            if calls.iter().any(|c| matches!(c.first(), Some(&"deliver") | Some(&"dropmux"))) { self.dg_q_ok[e] = false; }
             self.in_batch = true;
             for (k, call) in calls.iter().enumerate() {
                 if call.is_empty() { continue; }
@@ -518,6 +524,32 @@ impl World {
         // endpoint e is running: no terminating stimulus so far, task not finished
         let up_e = !self.view[e].exited && self.view[e].terminated_by.is_none();
         let both_up = up_e && !self.view[1 - e].exited && self.view[1 - e].terminated_by.is_none();
+        // C11, the receiving side: "a datagram is lost only when the receiver's datagram buffer is full or the
+        // connection ends". A shadow of the buffer: a valid Datagram frame that reaches a running endpoint
+        // whose receive loop is certainly not held up goes into the buffer if it has room (it is dropped,
+        // legitimately, if it has none); `get_datagram` hands the buffer out in order. The shadow is given up
+        // as soon as anything makes its content uncertain.
+        if t[0] == "deliver" && self.dg_q_ok[e] {
+            let held_up = self.backlog[e][0] >= self.opts[e].accept_cap || (self.opts[e].bind_cap > 0 && self.backlog[e][1] >= self.opts[e].bind_cap);
+            if !(up_e && self.view[e].mux_alive) || held_up {
+                self.dg_q_ok[e] = false;
+            } else if t.get(1) == Some(&"bin") {
+                if let Some((6, id, p)) = t.get(2).and_then(|h| parse_frame(h)) {
+                    if frame_valid(t[2]) && p.len() >= 3 && p.len() >= 3 + p[0] as usize {
+                        let hl = p[0] as usize;
+                        if self.dg_q[e].len() < self.opts[e].dgram_cap {
+                            self.dg_q[e].push_back(format!("{} {} {} {}", id, hexd(&p[3..3 + hl]), u16::from_be_bytes([p[1], p[2]]), hexd(&p[3 + hl..])));
+                        }
+                    } else {
+                        self.dg_q_ok[e] = false;
+                    }
+                } else if t.get(2).is_some_and(|h| !frame_valid(h)) {
+                    self.dg_q_ok[e] = false;
+                }
+            } else if !matches!(t[1], "ping" | "pong") {
+                self.dg_q_ok[e] = false;
+            }
+        }
         if t[0] == "deliver" && t.get(1) == Some(&"bin") {
             if let Some((op, id, _)) = t.get(2).and_then(|h| parse_frame(h)) {
                 if op != 6 {
@@ -754,6 +786,19 @@ impl World {
             ("dgrecv", ["dgram", fid, host, port, d]) => {
                 self.view[e].dg_recv.push(format!("{fid} {host} {port} {d}"));
                 self.exchanged = true;
+                if self.dg_q_ok[e] && up_e {
+                    *self.mon.entry("dgram-buffer-shadow/judged").or_insert(0) += 1;
+                    let got = format!("{fid} {host} {port} {d}");
+                    match self.dg_q[e].pop_front() {
+                        Some(x) if x == got => {}
+                        Some(x) => {
+                            let msg = format!("endpoint {}: `get_datagram` returned `{got}` while the oldest datagram that reached the endpoint with room in its datagram buffer (capacity {}), and has not been handed out, is `{x}`: that one was lost although the buffer was not full and the connection is up (or the order changed)", NAMES[e], self.opts[e].dgram_cap);
+                            self.fail("C11", "dgram-lost-with-room", msg);
+                            self.dg_q_ok[e] = false;
+                        }
+                        None => { self.dg_q_ok[e] = false; }
+                    }
+                }
                 if clean && !self.faulted {
                     // subsequence of what the peer sent
                     let sent = &self.view[1 - e].dg_sent;
@@ -761,6 +806,16 @@ impl World {
                     let ok = self.view[e].dg_recv.iter().all(|r| it.any(|s| s == r));
                     if !ok {
                         self.fail("C11", "dgram-subsequence", format!("received datagrams {:?} are not a subsequence of those sent {:?}", self.view[e].dg_recv, sent));
+                    }
+                }
+            }
+            ("dgrecv", ["pending"]) => {
+                if self.dg_q_ok[e] && up_e && self.view[e].mux_alive {
+                    *self.mon.entry("dgram-buffer-shadow/judged").or_insert(0) += 1;
+                    if let Some(x) = self.dg_q[e].front().cloned() {
+                        let msg = format!("endpoint {}: `get_datagram` has nothing to return although the datagram `{x}` reached the endpoint while its datagram buffer (capacity {}) had room and the connection is up: it was lost", NAMES[e], self.opts[e].dgram_cap);
+                        self.fail("C11", "dgram-lost-with-room", msg);
+                        self.dg_q_ok[e] = false;
                     }
                 }
             }
@@ -1283,7 +1338,7 @@ fn gen_opts(r: &mut Rng, focus: Focus) -> SimOpts {
         rwnd: *r.pick(&w),
         threshold: *r.pick(&w),
         accept_cap: r.range(1, 4) as usize,
-        dgram_cap: r.range(1, 4) as usize,
+        dgram_cap: if matches!(focus, Focus::C11) { *r.pick(&[1usize, 2, 3, 4, 4, 5, 6, 8]) } else { r.range(1, 4) as usize },
         bind_cap: if matches!(focus, Focus::C15) || r.chance(1, 2) { r.range(1, 3) as usize } else { 0 },
         max_retries: r.range(1, 3) as usize,
     }
@@ -1681,6 +1736,85 @@ fn run_case(r: &mut Rng, focus: Focus, len: usize) -> World {
         backpressure_drop_script(&mut w, r);
     }
     completion_phase(&mut w, r, focus);
+    w
+}
+
+/// C08: the `Multiplexor` is dropped while a frame of the peer is readable in the very same poll of the
+/// connection task (the receive loop is polled before the loop that notices the drop), with writes and
+/// datagrams accepted just before: everything queued before the drop still goes out, in order, before the
+/// Close. The arriving frame is whatever the peer had on the wire: a `Bind` request, a `Connect`, a
+/// datagram, data or an acknowledgement of a stream.
+fn drop_with_arrival_case(r: &mut Rng, focus: Focus) -> World {
+    let mut opts = [gen_opts(r, focus), gen_opts(r, focus)];
+    let e = r.below(2) as usize;
+    let pe = 1 - e;
+    if r.chance(3, 4) { opts[e].bind_cap = r.range(1, 2) as usize; }
+    if r.chance(1, 2) { opts[pe].bind_cap = r.range(1, 2) as usize; }
+    let mut w = World::new(opts);
+    for k in 0..2 {
+        let mut t = vec![s("rng")];
+        t.extend((0..8).map(|_| s(r.range(1, 0xffff_ffff))));
+        w.stim(k, &t);
+        w.view[k].rng_left = 8;
+    }
+    // one or two streams, established and taken by both applications
+    let n_streams = r.range(0, 2);
+    for _ in 0..n_streams {
+        let oe = r.below(2) as usize;
+        let req = w.next_req; w.next_req += 1; w.view[oe].rng_left -= 1;
+        w.stim(oe, &[s("open"), s(req), hexd(&r.bytes(2)), s(1000 + req)]);
+        for _ in 0..3 { while w.deliver_next(1 - oe) {} while w.deliver_next(oe) {} }
+        w.stim(1 - oe, &[s("accept")]);
+    }
+    // the peer puts something on the wire
+    let live_p: Vec<usize> = (0..w.view[pe].handles.len()).filter(|&h| w.view[pe].handles[h].alive).collect();
+    match r.below(6) {
+        0 | 1 | 2 => {
+            let req = w.next_req; w.next_req += 1; w.view[pe].rng_left -= 1;
+            let n = r.range(0, 4) as usize;
+            w.stim(pe, &[s("bindreq"), s(req), s(if r.chance(1, 2) { 1 } else { 3 }), hexd(&r.bytes(n)), s(2000 + req)]);
+        }
+        3 => {
+            let req = w.next_req; w.next_req += 1; w.view[pe].rng_left -= 1;
+            w.stim(pe, &[s("open"), s(req), hexd(&r.bytes(3)), s(1000 + req)]);
+        }
+        4 if !live_p.is_empty() => {
+            let h = *r.pick(&live_p);
+            let data = gen_payload(r, 0x90, w.view[pe].handles[h].written.len());
+            w.stim(pe, &[s("write"), s(h), hexd(&data)]);
+        }
+        _ => { w.stim(pe, &[s("dgsend"), s(r.range(1, 9)), hexd(&r.bytes(2)), s(53), hexd(&r.bytes(3))]); }
+    }
+    if w.sims[e].pending_futures() > 0 || !w.view[e].mux_alive || w.view[e].exited {
+        fair_completion(&mut w, 10);
+        final_checks(&mut w);
+        return w;
+    }
+    // the calls made just before the drop, the arriving frame, the drop: one poll of the task sees them all
+    let live: Vec<usize> = (0..w.view[e].handles.len()).filter(|&h| w.view[e].handles[h].alive).collect();
+    let mut t = vec![s("batch")];
+    let n = r.range(1, 3);
+    for k in 0..n {
+        if t.len() > 1 { t.push(s(";")); }
+        if !live.is_empty() && r.chance(1, 2) {
+            let h = live[k as usize % live.len()];
+            let hi = &w.view[e].handles[h];
+            let data: Vec<u8> = { let d = gen_payload(r, 0x50 + k as u8, hi.written.len()); if d.is_empty() { vec![0x51] } else { d } };
+            if k as usize >= live.len() { t.extend([s("dgsend"), s(r.range(1, 9)), hexd(&r.bytes(2)), s(53), hexd(&[k as u8])]); }
+            else { t.extend([s("write"), s(h), hexd(&data)]); }
+        } else {
+            t.extend([s("dgsend"), s(r.range(1, 9)), hexd(&r.bytes(2)), s(53), hexd(&[k as u8, 0x33])]);
+        }
+    }
+    if let Some(m) = w.wire[pe].front().cloned().filter(|m| !matches!(m.as_str(), "ping" | "pong" | "close")) {
+        w.wire[pe].pop_front();
+        t.extend([s(";"), s("deliver"), s("bin"), m]);
+        w.exchanged = true;
+    }
+    t.extend([s(";"), s("dropmux")]);
+    w.stim(e, &t);
+    fair_completion(&mut w, 20);
+    final_checks(&mut w);
     w
 }
 
@@ -2887,6 +3021,18 @@ fn main() {
             let mut r = base.fork(k);
             match catch(|| reopen_same_id_case(&mut r, focus)) {
                 Ok(w) => handle_world(w, "reopen-same-id", &mut rep, &mut drv),
+                Err(p) => rep.fail(FailKind::Impl, "harness-panic", &format!("panic outside a stimulus: {p}"), json!({})),
+            }
+        }
+    }
+    // the Multiplexor dropped in the same poll of the task in which a frame of the peer arrives
+    if matches!(focus, Focus::C08) {
+        let n = match args.tier { Tier::Quick => 60, Tier::Thorough => 1500 };
+        let base = Rng::new(args.seed ^ fnv(focus.name().as_bytes()) ^ 0x6472_6f70_6172);
+        for k in 0..n {
+            let mut r = base.fork(k);
+            match catch(|| drop_with_arrival_case(&mut r, focus)) {
+                Ok(w) => handle_world(w, "drop-with-arrival", &mut rep, &mut drv),
                 Err(p) => rep.fail(FailKind::Impl, "harness-panic", &format!("panic outside a stimulus: {p}"), json!({})),
             }
         }
